@@ -688,6 +688,13 @@ def handleM (r : Router) (method path : String) (item : Option H) : Router × Op
       let res := addM (cleanToks path) ((r.trees.lookup method).getD (newNode none)) h
       ({ trees := setTree method res.1 r1.trees }, res.2.map HandleErr.tree)
 
+/-- `Tree.Add(route, item)` with the mutation visible (raw strings: `errDupSlash` may leave item-less nodes behind). -/
+def treeAddM (root : Node) (route : String) (item : Option H) : Node × Option AddErr :=
+  if !rooted route then (root, some .notFromRoot) else
+  match item with
+  | none => (root, some .emptyItem)
+  | some h => addM (toksOf route) root h
+
 /-- `engine.bindRoutes` over the flattened list with the mutation visible: the router after the start-up attempt. -/
 def bindAllM (r : Router) : List Reg → Router × Option HandleErr
   | [] => (r, none)
